@@ -15,4 +15,26 @@ if B in d:
 else:
     d = d.rstrip() + "\n\n---------------------------------------------------------------------------\n\n## 10. As built, per property (generated from design/Cxx.md by tools/mkdesign.py)\n\n" + body + "\n"
 open(os.path.join(V, "DESIGN.md"), "w").write(d)
-print("spliced", len(parts), "notes")
+# table of repairs made to /repo (fix: commits) with the properties whose findings they close
+import json, subprocess
+log = subprocess.run(["git", "-C", "/repo", "log", "--reverse", "--format=%h\t%s"], capture_output=True, text=True).stdout.strip().split("\n")
+kf = json.load(open(os.path.join(V, "known_findings.json")))["findings"]
+rows = []
+for line in log:
+    h, subj = line.split("\t", 1)
+    if not subj.startswith("fix:"):
+        continue
+    props = sorted({e["property"] for e in kf if e.get("kind") == "fixed" and str(e.get("commit", "")).startswith(h[:7])})
+    rows.append(f"| `{h}` | {', '.join(props) or '-'} | {subj[4:].strip()} |")
+FB, FE = "<!-- FIXES BEGIN -->", "<!-- FIXES END -->"
+known = [e for e in kf if e.get("kind") == "known"]
+krows = [f"| {e['property']} | {e['what'][:300].replace('|', '/')} |" for e in known]
+ftab = (FB + "\n\n| commit in /repo | closes findings of | subject |\n|---|---|---|\n" + "\n".join(rows) +
+        "\n\nGenuine defects recorded and not repaired (`known` entries of `known_findings.json`; each check prints a "
+        "`KNOWN-FINDING:` line for them and still reports any other violation of the same property):\n\n"
+        "| property | what fails |\n|---|---|\n" + "\n".join(krows) + "\n\n" + FE)
+d = open(os.path.join(V, "DESIGN.md")).read()
+if FB in d:
+    d = d[:d.index(FB)] + ftab + d[d.index(FE) + len(FE):]
+open(os.path.join(V, "DESIGN.md"), "w").write(d)
+print("spliced", len(parts), "notes;", len(rows), "fix commits;", len(known), "known findings")
